@@ -50,6 +50,8 @@ type HistRec struct {
 	Hooks      map[string]int `json:"hooks"`
 	Aborted    bool           `json:"aborted"`
 	Pings      int            `json:"pings"`
+	Slow       bool           `json:"slow,omitempty"`    // some wait of the harness ran into its watchdog
+	Skipped    bool           `json:"skipped,omitempty"` // not executed: the child had already met 3 slow histories
 }
 
 var tick atomic.Int64
@@ -215,6 +217,7 @@ func (d *director) wait(pred func() bool, timeout time.Duration) bool {
 	defer d.mu.Unlock()
 	for !pred() {
 		if time.Now().After(deadline) {
+			d.rec.Slow = true
 			return false
 		}
 		d.cond.Wait()
@@ -449,6 +452,11 @@ func (d *director) teardown() {
 	}
 	// quiescence 1: every delivery goroutine has finished
 	quiet := settle(func() int { return d.base + d.liveHandlers() }, 3*time.Second)
+	if !quiet {
+		d.mu.Lock()
+		d.rec.Slow = true
+		d.mu.Unlock()
+	}
 	// quiescence 2: handlers have written what they took from their channels.
 	// A handler is a single loop (take one event, write it, take the next), and
 	// every earlier delivery goroutine has already handed its event over, so
@@ -612,6 +620,7 @@ func childRun(args []string) int {
 	}
 	sc := bufio.NewScanner(in)
 	sc.Buffer(make([]byte, 1<<20), 1<<24)
+	slow := 0
 	for line := 0; sc.Scan(); line++ {
 		if line < first {
 			continue
@@ -622,7 +631,17 @@ func childRun(args []string) int {
 			return 2
 		}
 		fmt.Fprintf(prog, "S %d\n", line)
-		rec := runScript(s, wd)
+		// Every failing history costs watchdog time; after three of them the
+		// rest of this child's batch is skipped (reported, never counted as held).
+		var rec *HistRec
+		if slow >= 3 {
+			rec = &HistRec{Idx: s.Idx, Name: s.Name, Skipped: true}
+		} else {
+			rec = runScript(s, wd)
+			if rec.Slow {
+				slow++
+			}
+		}
 		b, _ := json.Marshal(rec)
 		out.Write(append(b, '\n'))
 		fmt.Fprintf(prog, "D %d\n", line)
